@@ -7,6 +7,13 @@
               one call of the model's [linesearch] on the hooked objective of the harness (same hash, evaluated on the
               exact rationals, which are doubles); the three last groups are the ORACLE: the step lengths at which the
               real code evaluated the objective (tools/c10.py reads them from the harness' log)
+     T <n> <kind> <rat> | A | b | pt | value delta ratio | grad | hess | trial value or - | value after | grad after | hess after
+              ONE step of the trust-region Newton model (C10TrustRegion.v: tr_step = trustRegionCG + the radius / acceptance
+              rule) from the state the real class reports (hex floats).  Double instance: the objective oracles return what
+              the implementation's objective returned during that step (trial value of operator(), evalDerivative after an
+              accepted step); rational instance (rat = 1, kind = quad): the exactly converted doubles, the objective
+              1/2 x'Ax - b'x in exact arithmetic, sqrt = exact root where the argument is the square of a double, else the
+              rounded double root (sqex = 0)
    Numbers in: integers, p/q (decimal) or m@e (= m * 2^e).  Numbers out: [-]hex/hex (exact rationals). *)
 open C10_model
 
@@ -190,6 +197,59 @@ let rprop_replay toks =
       (qf qs'.rp_pt) (qf qs'.rp_delta) (qf qs'.rp_deltaw) (qf qs'.rp_oldder)
   | _ -> "?"
 
+(* ---- trust-region Newton: one step of tr_step from the implementation's own state ---- *)
+(* float of a positive from its 62 leading bits (exact for numbers with at most 53 significant bits, never overflows) *)
+let float_exp_of_pos p =
+  let bits = List.rev (pos_bits p) in                    (* most significant first *)
+  let rec take k l acc = if k = 0 then (acc, List.length l) else match l with [] -> (acc, 0) | b :: r -> take (k - 1) r (acc *. 2.0 +. float_of_int b) in
+  take 62 bits 0.0
+let float_of_q_scaled x =
+  let x = qred x in
+  match x.qnum with
+  | Z0 -> 0.0
+  | Zpos p | Zneg p ->
+    let (mn, en) = float_exp_of_pos p and (md, ed) = float_exp_of_pos x.qden in
+    let r = Float.ldexp (mn /. md) (en - ed) in
+    (match x.qnum with Zneg _ -> -. r | _ -> r)
+let sq_inexact = ref false
+let q_sqrt x =
+  let r = q_of_float (sqrt (float_of_q_scaled x)) in
+  if not (qeq_bool (qmult r r) x) then sq_inexact := true;
+  r
+let tr_exit_name = function 0 -> "tol0" | 1 -> "negcurv" | 2 -> "border" | 3 -> "tol" | _ -> "limit"
+let tr_replay toks =
+  match split_groups toks with
+  | [[ns; kind; rat]; al; bl; pt; [value; delta; ratio]; grad; hess; [tval]; [pv]; pgrad; phess] ->
+    let n = int_of_string ns in
+    let v = List.map fnum in
+    let s = { tr_pt = v pt; tr_val = fnum value; tr_delta = fnum delta; tr_ratio = fnum ratio; tr_grad = v grad; tr_hess = chunk n (v hess) } in
+    let f = (fun _ -> if tval = "-" then nan else fnum tval) in
+    let fd = (fun _ -> ((fnum pv, v pgrad), chunk n (v phess))) in
+    let le (a : float) (b : float) = a <= b in
+    let ((r, rho), acc) = tr_step_info fops le f s in
+    let s' = tr_step fops le 0.99 f fd s in
+    let trial = List.map2 ( +. ) s.tr_pt r.cg_step in
+    let dout = Printf.sprintf "pt=%s val=%s delta=%s exit=%s iters=%d pred=%s rho=%s acc=%d sol=%s trial=%s"
+        (fv_str s'.tr_pt) (f_str s'.tr_val) (f_str s'.tr_delta) (tr_exit_name (int_of_nat r.cg_exit)) (int_of_nat r.cg_iters)
+        (f_str r.cg_pred) (f_str rho) (if acc then 1 else 0) (fv_str r.cg_step) (fv_str trial) in
+    if rat <> "1" || kind <> "quad" then dout ^ " q=-" else begin
+      let qv = List.map (fun t -> q_of_float (fnum t)) in
+      let a = chunk n (qv al) and b = qv bl in
+      let qs = { tr_pt = qv pt; tr_val = q_of_float (fnum value); tr_delta = q_of_float (fnum delta); tr_ratio = q_of_float (fnum ratio);
+                 tr_grad = qv grad; tr_hess = chunk n (qv hess) } in
+      sq_inexact := false;
+      let o = qops q_sqrt in
+      let ((qr, qrho), qacc) = tr_step_info o qle_bool (quad_f a b) qs in
+      let qs' = tr_step o qle_bool q099 (quad_f a b) (quad_fd a b) qs in
+      let qf x = fv_str (List.map float_of_q_scaled x) in
+      Printf.sprintf "%s q=1 qpt=%s qval=%s qdelta=%s qexit=%s qiters=%d qacc=%d qrho=%s qtrial=%s sqex=%d xpt=%s xval=%s xdelta=%s"
+        dout (qf qs'.tr_pt) (f_str (float_of_q_scaled qs'.tr_val)) (f_str (float_of_q_scaled qs'.tr_delta))
+        (tr_exit_name (int_of_nat qr.cg_exit)) (int_of_nat qr.cg_iters) (if qacc then 1 else 0) (f_str (float_of_q_scaled qrho))
+        (qf (List.map2 qadd qs.tr_pt qr.cg_step)) (if !sq_inexact then 0 else 1)
+        (v_str qs'.tr_pt) (q_str qs'.tr_val) (q_str qs'.tr_delta)
+    end
+  | _ -> "?"
+
 (* the exact rationals of an L-BFGS history square in size with every stored pair: the model stops following a history
    (prints "-") once the entries of its point and of its direction need more than [max_bits] bits (environment C10_MAX_BITS) *)
 let max_bits = try int_of_string (Sys.getenv "C10_MAX_BITS") with _ -> 200
@@ -240,6 +300,7 @@ let () =
          | "B" :: rest -> lbfgs_replay rest
          | "A" :: rest -> adam_replay rest
          | "P" :: rest -> rprop_replay rest
+         | "T" :: rest -> tr_replay rest
          | "I" :: rest ->
            (match split_groups rest with
             | [[opt; ls; kind; ns]; al; bl; xl; pl; ll; ul] ->
